@@ -920,7 +920,56 @@ impl<'a> VisitMut for Rw<'a> {
         w.body.stmts.insert(0, parse_quote!(__vx_loop!(#lit);));
     }
 
+    fn visit_arm_mut(&mut self, a: &mut Arm) {
+        // T11: `#[rustfmt::skip]` on a match arm is a formatting directive only
+        let before = a.attrs.len();
+        // (path normalisation has already shortened `rustfmt::skip` to `skip`)
+        a.attrs.retain(|at| !(at.path().segments.iter().any(|s| s.ident == "rustfmt") || at.path().is_ident("skip")));
+        if a.attrs.len() != before {
+            self.site("T11-rustfmt-skip");
+        }
+        visit_mut::visit_arm_mut(self, a);
+    }
+
     fn visit_expr_mut(&mut self, e: &mut Expr) {
+        // T15: `Vec::from_iter(env, ITER.map(|p| BODY))` -> `{ let mut v = Vec::new(env); for p in ITER { v.push_back(BODY); } v }`.
+        // This is the SDK's own definition of `from_iter` (`new` + `extend` = `for item in iter { push_back(item) }`) with
+        // `Iterator::map`'s `next` (apply the closure to the next inner item) inlined; needed because Verus has no closures
+        // that capture `&mut` state, and the closure here may call effectful functions with the environment.
+        let mut t15: Option<Expr> = None;
+        if let Expr::Call(c) = e {
+            if let Expr::Path(p) = &*c.func {
+                let segs: Vec<String> = p.path.segments.iter().map(|s| s.ident.to_string()).collect();
+                if segs == ["Vec", "from_iter"] && c.args.len() == 2 {
+                    if let Expr::MethodCall(mc) = &c.args[1] {
+                        if mc.method == "map" && mc.args.len() == 1 {
+                            if let Expr::Closure(cl) = &mc.args[0] {
+                                if cl.inputs.len() == 1 && cl.capture.is_none() {
+                                    let env = &c.args[0];
+                                    let it = &mc.receiver;
+                                    let pat: Pat = match &cl.inputs[0] {
+                                        Pat::Type(pt) => (*pt.pat).clone(),
+                                        other => other.clone(),
+                                    };
+                                    let body = &cl.body;
+                                    t15 = Some(parse_quote!({
+                                        let mut __vx_fi = Vec::new(#env);
+                                        for #pat in #it {
+                                            __vx_fi.push_back(#body);
+                                        }
+                                        __vx_fi
+                                    }));
+                                }
+                            }
+                        }
+                    }
+                }
+            }
+        }
+        if let Some(n) = t15 {
+            *e = n;
+            self.site("T15-from-iter-map");
+        }
         // T14 (eta): `.map(Ctor)` with a tuple-struct constructor used as a function value -> `.map(|__c| Ctor(__c))`
         // (Verus does not support constructors as function values; the closure is the same function)
         if let Expr::MethodCall(mc) = e {
